@@ -37,7 +37,7 @@ ASSUMPTIONS = [
     "sampled, not enumerated (the exhaustive-up-to-a-bound part of the quantifier would be model checking)",
     "line-level interleaving of planner jobs switches threads only at Python line boundaries inside flox frames (not inside a NumPy call)",
 ]
-PROBES = ["closure2d_blockwise", "closure2d_batch_chunked", "planner_more_jobs_than_pool_workers", "planner_jobs_preempted_linewise", "planner_threadpool_branch", "planner_serial_branch", "planner_jobs_reordered", "planner_prefers_cohorts",
+PROBES = ["planner_broadcast_labels", "closure2d_blockwise", "closure2d_batch_chunked", "planner_more_jobs_than_pool_workers", "planner_jobs_preempted_linewise", "planner_threadpool_branch", "planner_serial_branch", "planner_jobs_reordered", "planner_prefers_cohorts",
           "planner_prefers_blockwise", "planner_prefers_mapreduce", "planner_merged_by_containment", "labels_2d",
           "closure_cohorts", "closure_blockwise", "conservation_crash", "conservation_dup", "cohorts_multi"]
 
@@ -84,6 +84,12 @@ def gen(tape: Tape, tier: str) -> dict:
         "chunks": chunks,
         "meta": {"pattern": pattern},
     }
+    if layer == "planner" and ndim == 2 and tape.chance("gen.broadcast", 0.3):
+        # labels with a size-1 axis that broadcasts against a value array with several blocks along that axis
+        case["codes"] = enc_array(codes[:1, :])
+        m = tape.randint("gen.broadcast.m", 2, 4)
+        case["chunks"] = [gen_chunks(tape, m, "gen.broadcast.c", max_blocks=3), chunks[1]]
+        case["meta"]["broadcast"] = True
     if layer == "planner":
         case["merge"] = bool(tape.chance("gen.merge", 0.5))
         # line-level pre-emption between the planner's thread-pool jobs (all planner runs in thorough, a quarter in quick)
@@ -179,7 +185,9 @@ def run_planner(case, tape, ctx):
 
     codes = dec_array(case["codes"])
     chunks = [tuple(c) for c in case["chunks"]]
-    present, nblocks = _blocks_of_labels(codes, chunks)
+    full = np.broadcast_to(codes, tuple(sum(c) for c in chunks)) if codes.ndim == len(chunks) else codes
+    ctx.probe("planner_broadcast_labels", full.shape != codes.shape)
+    present, nblocks = _blocks_of_labels(full, chunks)
     if not present:
         raise Skip("no-label-present")
     maxlab = max(present)
